@@ -33,7 +33,8 @@ TIERS = {
 }
 FLOORS = {
     "quick": {"counts": {"shutdown_ops_checked": 10000, "checked_with_tool_running": 2500,
-                         "checked_with_coolant_on": 2000, "checked_bounds_exclude_zero": 1500}, "keys": 60},
+                         "checked_with_coolant_on": 2000, "checked_bounds_exclude_zero": 1500,
+                         "checkpoints_after_a_half_refused_call": 300}, "keys": 60},
     "thorough": {"counts": {"shutdown_ops_checked": 500000}, "keys": 80},
 }
 
@@ -94,6 +95,16 @@ def run_case(ctx, col, case):
             op.apply(model)
         if i not in checkpoints:
             continue
+        if rng.random() < 0.2:
+            # reach the checkpoint through a call that was refused half-way (a wrongly typed temperature
+            # word) followed at once by a start: whatever the refused call left pending must not get in
+            # the way of switching things off
+            for name, args, kw in (("halt", (rng.choice(["wait-for-hotend", "wait-for-bed"]),), {"S": "210"}),
+                                   rng.choice([("coolant_on", ("flood",), {}), ("tool_on", ("cw", plo), {}),
+                                               ("power_on", ("constant", phi), {})])):
+                outcome, exc, new, _ = s.call(name, *args, **kw)
+                log.append([name, list(args), kw, outcome])
+            col.count("checkpoints_after_a_half_refused_call")
         st = g.state
         tool_api = "none"
         if st.is_tool_active:
